@@ -16,6 +16,8 @@ NASTY = [
     b'{"result":null,"error":-Infinity,"id":0}', b'{"result":null,"error":{"code":NaN,"message":"x"},"id":0}', b'{"error":NaN,"id":0}',
     b'{"jsonrpc":"2.0","error":{"code":-1e999,"message":"x"},"id":0}', b'{"jsonrpc":"2.0","error":{"code":2.5,"message":"x"},"id":0}',
     b'[{"result":null,"error":{"code":1e999,"message":"x"},"id":0},{"result":1,"id":1}]',
+    b'{"jsonrpc":[],"method":"echo","id":1}', b'{"jsonrpc":{},"method":"m"}', b'{"jsonrpc":[1],"result":1,"id":0}',
+    b'[{"jsonrpc":{"a":1},"method":"m","id":1}]', b'{"jsonrpc":["2.0"],"method":"m","params":[],"id":2}', b'{"jsonrpc":null,"method":"m","id":3}',
     b'[{"result":1,"id":0},{"result":2,"id":"0"}]', b'[{"result":1,"id":1.5},{"result":2,"id":true}]',
     b'[' * 100000, b'[' * 3000 + b']' * 3000, b'{"a":' * 5000 + b'1' + b'}' * 5000,
     b'{"jsonrpc":"2.0","id":' + b'9' * 5000 + b',"result":1}', b'{"jsonrpc":"2.0","method":"m","params":[' + b'1' * 4301 + b'],"id":1}',
